@@ -207,6 +207,14 @@ class ScriptDriver:
             self.falsy_factories += 1
 
     def _react(self, p, kind):
+        if kind == "data" and self.pauses > 0 and not self.stop and not getattr(p, "app_paused", False) and self.is_open(p) \
+                and self.rng.random() < 0.3:
+            # back-pressure applied where applications apply it: from inside dataReceived(), possibly with further
+            # records of the same read still to come
+            self.pauses -= 1
+            self.pauses_in_data = getattr(self, "pauses_in_data", 0) + 1
+            self.pause(p)
+            return
         if self.reactions <= 0 or self.stop or self.rng.random() < 0.5:
             return
         self.reactions -= 1
@@ -231,7 +239,7 @@ class ScriptDriver:
 
     def listen(self, side, name):
         f = RecFactory(self.dp, "%s.accept[%s]" % (side, name), half=self.rng.random() < self.half)
-        if self.reactions:
+        if self.reactions or self.pauses:
             f.react = self._react
         self._maybe_falsy(f)
         f.sent_by = {}
@@ -240,7 +248,7 @@ class ScriptDriver:
 
     def open(self, side, name):
         f = RecFactory(self.dp, "%s.open[%s]" % (side, name), half=self.rng.random() < self.half)
-        if self.reactions:
+        if self.reactions or self.pauses:
             f.react = self._react
         self._maybe_falsy(f)
         rec = {"side": side, "name": name, "proto": None, "failure": None, "factory": f, "step": self.world.step}
@@ -278,10 +286,14 @@ class ScriptDriver:
             payload = tag + self.rng.randbytes(max(0, size - len(tag)))
         if not hasattr(p, "sent"):
             p.sent = []
+        # (recorded in the order the writes were issued: a write made from inside this one - by a producer that is told to
+        #  pause by it - is issued, and sent, after it)
+        p.sent.append(payload)
+        n_ = len(p.sent)
         try:
             p.transport.write(payload)
-            p.sent.append(payload)
         except Exception as e:
+            del p.sent[n_ - 1]
             self.write_errors.append((p.name, type(e).__name__, repr(e)[:100]))
 
     def pause(self, p):
